@@ -17,6 +17,19 @@ CHECKS = {
              "inputs, run through the real entry points, and the recorded event/close/return trace is validated by TLC "
              "against the same actions (spec/trace/ACVTrace.tla).",
         ref="DESIGN.md §6 C11", technique="TLA+ model checking (TLC) + trace validation of real executions"),
+    "C04": dict(
+        text="TLC checks NoVerdictOnUnreadable on the ACV model for every entry point / class / channel mode (and refutes it "
+             "for the named deviation SwallowDecodeError); real texts whose unreadability is established independently of the "
+             "code under test (a fresh encoding/json decoder fails, or a direct json-gold Flatten fails) are run through all "
+             "validating entry points and the recorded traces are validated by TLC with the data class logged, so a report "
+             "for an unreadable text is not a behaviour of the spec.",
+        ref="DESIGN.md §6 C04", technique="TLA+ model checking (TLC) + trace validation of real executions"),
+    "C17": dict(
+        text="TLC checks OutcomeIsReportOrError / NoNodesConforms and liveness EveryCallReturns (weak fairness) on the ACV "
+             "model; seeded structured mutations of all fixtures plus raw bytes are run through every public entry point under "
+             "recover() and a watchdog, and each recorded trace (events, close, outcome) must be a behaviour of the model - "
+             "panic and timeout are not outcomes of any spec action. The byte space is explored, not enumerated.",
+        ref="DESIGN.md §6 C17", technique="TLA+ model checking (TLC) + trace validation of fuzzed real executions"),
 }
 
 NOT_YET = "no check registered yet for this property in the current state of the framework (design in DESIGN.md §6)"
